@@ -52,7 +52,7 @@ func checkJSONRecord(rc recCase, payloads []string, pan string) (clause, detail 
 	}
 	ln, hasLogger := obj.Get("logger")
 	if rc.Named {
-		if r := jsonStringIs(ln, recLoggerName); r != "" {
+		if r := jsonStringIs(ln, rc.loggerName()); r != "" {
 			return "logger-member", "logger: " + r
 		}
 	} else if hasLogger {
@@ -320,6 +320,17 @@ func fmtCases(format string, keys []string, thorough bool, emit func(rc recCase)
 		c.Layer = "L4c-groups-after-prior-records"
 		c.Prior = true
 		emit(c)
+	}
+	// L6: logger names are string-like values too
+	if format != "color" {
+		for _, nm := range []string{`api" role="admin`, "a\nb", `a\b`, "a b", "é\u2028", "a\xffb", "a\x1b[31mb", "a\tb\x01", `","level":"panic`, "k=v"} {
+			rc := base
+			rc.Layer = "L6-logger-name"
+			rc.Named = true
+			rc.NameQ = qk(nm)
+			rc.Attrs = []attrNode{leaf("k", "int:-1")}
+			emit(rc)
+		}
 	}
 	// L5: every value two groups deep, with members before and after it at every level
 	li := func(k string) attrNode { return leaf(k, "int:-1") }
